@@ -1,6 +1,6 @@
 SPECIFICATION Spec
-CONSTANTS Quick = FALSE
- ResetScoreC = TRUE
+CONSTANTS Quick = TRUE
+ ResetScoreC = FALSE
 INVARIANT WithinLimit
 INVARIANT OptimalSingle
 CHECK_DEADLOCK FALSE
